@@ -47,11 +47,10 @@ def parse_sets(t):
     for ctx, d, grp, pat in t['dirmarks']:
         if ctx > 0 and d < 0 and grp == 0 and cr2l is not None:
             s = pat.decode('utf-8')
-            r = ''.join(chr(c) for c in [ord(ch) for ch in s[1:s.index(']')]])
-            # pattern is [R][N R]*[R]
-            parts = s.split('][')
-            if len(parts) == 3 and parts[1].endswith(r):
-                cneut = set(ord(ch) for ch in parts[1][:-len(r)])
+            r = s[1:s.index(']')]
+            prefix, suffix = '[' + r + '][', r + ']*[' + r + ']'       # the pattern is [R][N R]*[R]
+            if set(ord(ch) for ch in r) == cr2l and s.startswith(prefix) and s.endswith(suffix) and len(s) > len(prefix) + len(suffix):
+                cneut = set(ord(ch) for ch in s[len(prefix):-len(suffix)])
     return cr2l, cneut
 
 
@@ -515,7 +514,7 @@ def run(ctx):
         extra = [0, 0x41, 0x20, 0x64b, 0x670, 0x600, 0x6f0, 0xfe8e, 0xfeff, 0x200e]
         nbs = [a[0] for a in sp.t['achars']] + extra
         nbad = 0
-        for line in tail:
+        for line in tail[:-1]:
             if line.startswith('j') or ':' not in line:
                 continue
             head, _c, body = line.partition(':')
@@ -542,8 +541,7 @@ def run(ctx):
                                                    % (cur, p, n, vals[k], want), 'input': ['shape %s 1' % vlib.hx(rc.enc([x for x in (p, cur, n) if x]))],
                                            'expected': '%04X' % want, 'observed': '%04X' % vals[k]})
                     k += 1
-        res.count('letter x neighbour triples (sweep)', sum(1 for l in tail if l[:1].isdigit()) * len(nbs) * len(nbs))
-        fa = [l for l in tail if l and not l.startswith('j') and l.split(':')[0].isdigit() and ',' in l and l.count(':') > 1]
+        res.count('letter x neighbour triples (sweep)', sum(1 for l in tail[:-1] if l[:1].isdigit()) * len(nbs) * len(nbs))
         want_fa = ''.join('%d:%d,' % (a[0], i) for i, a in enumerate(sp.t['achars']))
         if tail[-1] != want_fa:
             res.violation({'what': 'find_achar over all code points does not find exactly the rows of the table', 'input': ['fasweep'],
